@@ -819,6 +819,22 @@ def construct_builtin(ex, cname: str, pos, kws, kwrest, st: State, node) -> List
     if cname == "dict":
         if not pos and not kws:
             return [(st, ex.new_dict(st))]
+        if len(pos) == 1 and not kws:
+            h_ = ex.hint_of(pos[0], st)
+            if h_ is None and isinstance(pos[0], T):
+                h_ = ex.refine_hint(pos[0], st, ("dict",))
+            if h_ == "dict":
+                # dict(d): a new dict with the same items in the same order
+                d0 = ex.dict_snap(pos[0], st)
+                d1 = M.fresh("D")
+                x = z3.Const("x", Obj)
+                j = z3.Int("j")
+                st.assume(M.is_Ref(d1), M.rcls(d1) == ex.ct.id("dict"), M.klen(d1) == M.klen(d0),
+                          z3.ForAll([x], M.has(d1, x) == M.has(d0, x), patterns=[M.has(d1, x), M.has(d0, x)]),
+                          z3.ForAll([x], M.dget(d1, x) == M.dget(d0, x), patterns=[M.dget(d1, x)]),
+                          z3.ForAll([j], M.kat(d1, j) == M.kat(d0, j), patterns=[M.kat(d1, j)]))
+                _trust(ex, "dict(d): a copy with the same items in the same order")
+                return [(st, ex.new_cell(st, DictC(d1)))]
         raise Unsupported("dict(x)")
     if cname == "timedelta":
         r = M.fresh("td")
